@@ -286,6 +286,17 @@ impl schemars::visit::Visitor for ReferenceVisitor<'_> {
                     .get(name)
                     .expect("invalid reference")
                     .clone();
+                // The generator's own definitions have not been through its
+                // visitors: those are applied only to what
+                // `root_schema_for()` returns.  Apply them here so that a
+                // definition reached through a parameter or a header is the
+                // one the same type gets in a request or response body
+                // (e.g., annotations beside a `$ref` are kept next to an
+                // `allOf`, and `examples` becomes `example`).
+                for visitor in &self.generator.settings().visitors {
+                    let mut visitor = visitor.clone();
+                    visitor.visit_schema(&mut refschema);
+                }
                 self.dependencies.insert(
                     name.to_string(),
                     schemars::schema::Schema::Bool(false),
